@@ -75,14 +75,14 @@ impl Case {
             // trackers must live for 100+ blocks
             "chain" => (*rng.pick(&[5u32, 21, 1000]), *rng.pick(&[150u32, 500, 500]), *rng.pick(GRACES)),
             // plenty of slots, so that a crash costing a request's slots cannot cascade into later refusals
-            "crash" => (1000, *rng.pick(&[20u32, 150, 500, 500]), *rng.pick(GRACES)),
+            "crash" | "outage" => (1000, *rng.pick(&[20u32, 150, 500, 500]), *rng.pick(GRACES)),
             "expiry" => (*rng.pick(&[0u32, 1, 2, 3, 5, 21, 1000, 0x8000_0000, u32::MAX]), *rng.pick(&[0u32, 1, 2, 5, 20]), *rng.pick(GRACES)),
             _ => (*rng.pick(SLOTS), *rng.pick(DURATIONS), *rng.pick(GRACES)),
         };
         let db_path = dir.join(format!("case-{id}.sqlite"));
         let _ = std::fs::remove_file(&db_path);
         let model = Model::new(s, d, g, &lock(&world.chain));
-        let max_steps = if bias == "crash" { 12 + rng.usize(28) } else { 30 + rng.usize(120) };
+        let max_steps = if bias == "crash" { 12 + rng.usize(28) } else if bias == "outage" { 25 + rng.usize(40) } else { 30 + rng.usize(120) };
         Case {
             id,
             world,
@@ -260,7 +260,7 @@ impl Case {
         }
         let registered = self.model.users.len();
         // a block was mined but not yet delivered: usually deliver it
-        if self.pending_blocks > 0 && (self.bias == "crash" || self.rng.chance(70, 100)) {
+        if self.pending_blocks > 0 && (self.bias == "crash" || self.bias == "outage" || self.rng.chance(70, 100)) {
             return Op::Poll;
         }
         let (w_reorg, w_long, w_restart) = match self.bias.as_str() {
@@ -269,6 +269,7 @@ impl Case {
             _ => (5, 3, 1),
         };
         let w_register = if registered == 0 { 30 } else if registered < self.world.users.len() { 8 } else { 3 };
+        let w_restart = if self.bias == "outage" { 0 } else { w_restart };
         let weights = [w_register, 26, 7, 4, 24, 5, w_reorg, w_long, 3, 1, w_restart, 1];
         match self.rng.weighted(&weights) {
             0 => {
